@@ -754,13 +754,34 @@ void ares_channel_threading_destroy(ares_channel_t *channel)
   channel->cond_empty = NULL;
 }
 
+#ifdef CARES_VERIF_HOOKS
+/* verification hook: channel lock event log / yield point
+ * ev: 0 = before acquire, 1 = acquired, 2 = before release */
+void (*ares_verif_lock_cb)(const ares_channel_t *channel, int ev) = NULL;
+#endif
+
 void ares_channel_lock(const ares_channel_t *channel)
 {
+#ifdef CARES_VERIF_HOOKS
+  if (ares_verif_lock_cb != NULL) {
+    ares_verif_lock_cb(channel, 0);
+  }
+#endif
   ares_thread_mutex_lock(channel->lock);
+#ifdef CARES_VERIF_HOOKS
+  if (ares_verif_lock_cb != NULL) {
+    ares_verif_lock_cb(channel, 1);
+  }
+#endif
 }
 
 void ares_channel_unlock(const ares_channel_t *channel)
 {
+#ifdef CARES_VERIF_HOOKS
+  if (ares_verif_lock_cb != NULL) {
+    ares_verif_lock_cb(channel, 2);
+  }
+#endif
   ares_thread_mutex_unlock(channel->lock);
 }
 
